@@ -260,8 +260,8 @@ def run(prop, tier, seed, nworkers=None, keep=False):
         reasons.append("under-observed:" + ",".join("%s=%d<%d" % (c, g, m) for c, (g, m) in sorted(missing.items())[:8]))
     req_funcs = getattr(mod, "REQUIRED_FUNCS", ())
     miss_f = [f for f in req_funcs if not any(x.endswith(":" + f) or x.endswith("." + f) for x in funcs)]
-    if miss_f:
-        reasons.append("functions-not-reached:" + ",".join(miss_f))
+    # advisory only: internal function names may legitimately change in a refactoring, so an
+    # unreached name is reported in the evidence and never makes a run inconclusive
     if hasattr(mod, "aggregate_check"):
         reasons.extend(mod.aggregate_check(extras, cells, tier))
     if judged < 2:
@@ -305,6 +305,7 @@ def run(prop, tier, seed, nworkers=None, keep=False):
             "cells_seen_only_in_hash_flagged_cases": dict(sorted(flagged_cells.items())),
             "required_cells": req_cells,
             "library_functions_reached": sorted(funcs),
+            "expected_internal_functions_not_reached(advisory)": miss_f,
             "library_lines_reached_max_per_worker": tot["nlines"],
             "raise_sites_reached": dict(raises),
             "intersection_calls_observed": dict(sorted(inter_cells.items())),
